@@ -83,6 +83,9 @@ def plant(work, tag, a, b, scope, snake):
     elif scope == "enum":
         sdl = f"enum PairEnum {{ {a} {b} }}\ntype Query {{ f(e: PairEnum): Int }}\n"
         q = "query PairOp($e: PairEnum) { f(e: $e) }\n"
+    elif scope == "variables":      # two variables of one operation = two arguments of one generated method
+        sdl = f"type Query {{ f({a}: Int, {b}: Int): Int }}\n"
+        q = f"query PairOp(${a}: Int, ${b}: Int) {{ f({a}: ${a}, {b}: ${b}) }}\n"
     else:
         sdl = "type Query { x: Int }\n"
         q = f"query {a} {{ x }}\nquery {b} {{ x }}\n"
@@ -167,23 +170,30 @@ def run(tier, work, replay=None):
         if a.startswith("__") or b.startswith("__") or a in ("true", "false", "null") or a > b:
             continue
         for scope, snake, key in (("fields", True, "fields_snake"), ("fields", False, "fields_plain"), ("input", True, "fields_snake"),
-                                  ("input", False, "fields_plain"), ("ops", True, "ops"), ("enum", True, "enum")):
+                                  ("input", False, "fields_plain"), ("ops", True, "ops"), ("enum", True, "enum"),
+                                  # method arguments are snake-cased but neither trimmed nor checked against pydantic's names:
+                                  # pairs that only collide after trimming must stay distinct there
+                                  ("variables", True, "ops"), ("variables", False, "fields_plain"), ("variables", False, "enum")):
             if pr[key]:
                 cand.append((a, b, scope, snake))
     extra = [("fooBar", "foo_bar", "fields", True), ("fooBar", "foo_bar", "input", True), ("getItem", "GetItem", "ops", True),
              ("get_item", "getItem", "ops", True), ("in", "in_", "enum", True), ("from", "from_", "fields", True), ("from", "from_", "input", False),
-             ("copy", "copy_", "fields", True), ("query", "_query", "fields", True), ("fooBar", "fooBaz", "fields", True), ("a", "b", "ops", True)]
+             ("copy", "copy_", "fields", True), ("query", "_query", "fields", True), ("fooBar", "fooBaz", "fields", True), ("a", "b", "ops", True),
+             ("_x", "x", "variables", False), ("_id", "id", "variables", False), ("a", "b", "variables", True), ("fooBar", "foo_bar", "variables", True),
+             ("fooBar", "foo_bar", "variables", False), ("in", "in_", "variables", False)]
     rnd.shuffle(cand)
     cand = extra + cand[: (40 if q else 400)]
     outs = pmap(lambda t: (t[1], plant(work, str(t[0]), *t[1])), list(enumerate(cand)))
     for (a, b, scope, snake), o in outs:
-        feats = {"name": f"{a}+{b}", "scope": scope, "snake": snake, "shape": "pair"}
+        feats = {"name": f"{a}+{b}", "scope": scope, "snake": snake, "shape": "pair",
+                 "kw_suffix_pair": bool(keyword.iskeyword(a) and b == a + "_")}
         fate = o.get("fate")
         if fate in ("crashed", "broken"):
             v.violation(feats, f"pair_{fate}", o)
         elif fate == "merged":
             v.violation(feats, "silently_merged", o)
-        sn, tr, rs = {"fields": (snake, True, True), "input": (snake, True, True), "ops": (True, False, False), "enum": (False, False, False)}[scope]
+        sn, tr, rs = {"fields": (snake, True, True), "input": (snake, True, True), "ops": (True, False, False), "enum": (False, False, False),
+                      "variables": (snake, False, False)}[scope]
         if scope == "enum":
             continue        # enum members are not mapped by process_name (keyword suffix only): judged by fate alone
         pa = json.loads(run_py(["-c", f"import json; from ariadne_codegen.utils import process_name as p; print(json.dumps([p({a!r}, convert_to_snake_case={sn}, trim_leading_underscore={tr}, handle_pydantic_resrved_field_names={rs}), p({b!r}, convert_to_snake_case={sn}, trim_leading_underscore={tr}, handle_pydantic_resrved_field_names={rs})]))"]).stdout.strip().splitlines()[-1])
